@@ -35,6 +35,8 @@ type methodInfo struct {
 	newReq   func() proto.Message
 	newResp  func() proto.Message
 	httpPath func(pathVar string) string // annotated / implicit HTTP path
+	httpVerb string                      // verb of the annotated route (default POST)
+	httpBodyResp bool                    // the response type is google.api.HttpBody (raw over HTTP)
 }
 
 func (m *methodInfo) Full() string { return "/" + m.Service + "/" + m.Name }
@@ -83,7 +85,7 @@ var methods = map[string]*methodInfo{
 		newReq:  func() proto.Message { return &grpc_testing.StreamingOutputCallRequest{} },
 		newResp: func() proto.Message { return &grpc_testing.StreamingOutputCallResponse{} }},
 	// HttpBody chunk streaming: the request "message" is the raw chunk.
-	"files": {Key: "files", Service: "larking.testpb.Files", Name: "LargeUploadDownload", ClientS: true, ServerS: true,
+	"files": {Key: "files", Service: "larking.testpb.Files", Name: "LargeUploadDownload", ClientS: true, ServerS: true, httpBodyResp: true,
 		mkReq: func(p []byte, pathVar string) proto.Message {
 			return &testpb.UploadFileRequest{Filename: pathVar, File: &httpbody.HttpBody{ContentType: "image/jpeg", Data: p}}
 		},
@@ -91,6 +93,26 @@ var methods = map[string]*methodInfo{
 		newReq:   func() proto.Message { return &testpb.UploadFileRequest{} },
 		newResp:  func() proto.Message { return &httpbody.HttpBody{} },
 		httpPath: func(v string) string { return "/files/large/" + v }},
+	// unary methods with annotated HTTP routes (registrysim probes)
+	"upload": {Key: "upload", Service: "larking.testpb.Files", Name: "UploadDownload", httpBodyResp: true,
+		mkReq: func(p []byte, pathVar string) proto.Message {
+			return &testpb.UploadFileRequest{Filename: pathVar, File: &httpbody.HttpBody{ContentType: "image/jpeg", Data: p}}
+		},
+		mkResp:   func(p []byte) proto.Message { return &httpbody.HttpBody{ContentType: "image/jpeg", Data: p} },
+		newReq:   func() proto.Message { return &testpb.UploadFileRequest{} },
+		newResp:  func() proto.Message { return &httpbody.HttpBody{} },
+		httpPath: func(v string) string { return "/files/" + v }},
+	"getmsg": {Key: "getmsg", Service: "larking.testpb.Messaging", Name: "GetMessageOne", httpVerb: "GET",
+		mkReq: func(p []byte, pathVar string) proto.Message {
+			if pathVar != "" {
+				return &testpb.GetMessageRequestOne{Name: pathVar}
+			}
+			return &testpb.GetMessageRequestOne{Name: textOf(p)}
+		},
+		mkResp:   func(p []byte) proto.Message { return &testpb.Message{Text: textOf(p)} },
+		newReq:   func() proto.Message { return &testpb.GetMessageRequestOne{} },
+		newResp:  func() proto.Message { return &testpb.Message{} },
+		httpPath: func(v string) string { return "/v1/messages/" + v }},
 	"chat": {Key: "chat", Service: "larking.testpb.ChatRoom", Name: "Chat", ClientS: true, ServerS: true,
 		mkReq:    func(p []byte, pathVar string) proto.Message { return &testpb.ChatMessage{Name: pathVar, Text: textOf(p)} },
 		mkResp:   func(p []byte) proto.Message { return &testpb.ChatMessage{Name: "srv", Text: textOf(p)} },
@@ -317,6 +339,8 @@ func (w *World) serviceDesc(service string) *grpc.ServiceDesc {
 }
 
 func (w *World) enter(ctx context.Context, rs *reqState) *HLog {
+	rs.servedBy = append(rs.servedBy, w.tag)
+	w.calls++
 	l := rs.hlogFor(w.tag)
 	l.Entered = true
 	l.EnteredAt = w.sim.Now()
